@@ -343,7 +343,12 @@ pub fn plan_creator(w: &World, _k: &Knobs, actor: &mut Actor, l: &Ledger, now: i
     // pair it with an existing mint of the world
     let other = &w.mints[rng.idx(w.mints.len())];
     let (ma, pa, mb, pb) = if mint < other.key { (mint, owner, other.key, other.program) } else { (other.key, other.program, mint, owner) };
-    let (ma, pa, mb, pb) = if rng.chance(1, 15) { (mb, pb, ma, pa) } else { (ma, pa, mb, pb) }; // wrong order sometimes
+    let (ma, pa, mb, pb) = match rng.below(20) {
+        0 => (mb, pb, ma, pa), // reversed order
+        1 => (ma, pa, ma, pa), // the same mint on both sides
+        2 => (mb, pb, mb, pb),
+        _ => (ma, pa, mb, pb),
+    };
     let have: Vec<u16> = l.accts.iter().filter(|(_, a)| a.owner == ix::wp()).filter_map(|(_, a)| decode::fee_tier(&a.data)).filter(|t| t.config == config).map(|t| t.tick_spacing).collect();
     let spacing = if !have.is_empty() && rng.chance(9, 10) { *rng.pick(&have) } else { *rng.pick(&[1u16, 8, 64, 128, 32768]) };
     let price = match rng.below(8) {
